@@ -122,14 +122,14 @@ def remove (P : Params) (a : Nat) (b : Bytes) (i : Nat) : Bytes × Res Bytes :=
   | .ok v =>
     if i ≥ v.len then (b, .err .invalidArgument)
     else
-      let ds := dataStart P
       -- let removed_item = self.data[index]
-      match slice b (ds + i * P.sizeT) (ds + (i + 1) * P.sizeT) with
+      match slice b (dataStart P + i * P.sizeT) (dataStart P + (i + 1) * P.sizeT) with
       | .ok removed =>
         if i + 1 > usizeMax then (b, .err .arithmeticOverflow)
         else
           -- self.data.copy_within(tail_start..len, index)
-          match copyWithin b (ds + (i + 1) * P.sizeT) (ds + v.len * P.sizeT) (ds + i * P.sizeT) with
+          match copyWithin b (dataStart P + (i + 1) * P.sizeT) (dataStart P + v.len * P.sizeT)
+              (dataStart P + i * P.sizeT) with
           | .ok b1 =>
             match Pod.tryFromUsize P.wL (v.len - 1) with
             | .ok newLen =>
